@@ -103,3 +103,28 @@ Print Assumptions C07_solveU_refines.
 Print Assumptions C07_solveU_spec.
 Print Assumptions C07_invU_spec.
 Print Assumptions C07_traceU_spec.
+
+(* ---- det via LU (utpm.py: det = piv2det(PIV) * prod(diag(U))) is the Leibniz determinant of the polynomial matrix modulo X^D *)
+From AlgoV Require Import MatrixFact FactSpec DetSpec.
+Theorem C07_det_lu_series (K : fieldType) (n : nat) (wT : 'M[K]_n) (sgn : K) (A L U : seq 'M[K]_n) :
+  size L = size A -> size U = size A ->
+  sgn * \det wT = 1 ->
+  (forall d, (d < size A)%N -> \sum_(c < d.+1) L`_c *m U`_(d - c) = wT *m A`_d) ->
+  (forall d, (d < size A)%N -> is_upper U`_d) ->
+  is_unit_lower L`_0 -> (forall d, (d.+1 < size A)%N -> is_strict_lower L`_d.+1) ->
+  forall d, (d < size A)%N -> (\det (pmx A))`_d = (sgn%:P * \prod_i (pmx U) i i)`_d.
+Proof. exact: det_lu_series. Qed.
+Print Assumptions C07_det_lu_series.
+Theorem C07_detU_spec (K : fieldType) (n : nat) (sgn : K) (Us : seq (mx K)) d : (d < size Us)%N ->
+  (detU n sgn Us)`_d = (sgn%:P * \prod_(i < n) Poly [seq mxget U i i | U <- Us])`_d.
+Proof. exact: detU_spec. Qed.
+Print Assumptions C07_detU_spec.
+(* end to end on the executable list-matrix kernels: the LU recurrence followed by the det kernel *)
+Theorem C07_detU_luU_is_det (K : fieldType) (n : nat) (wT : mx K) (sgn : K) (A : seq (mx K)) (L0 U0 L0inv U0inv : mx K) :
+  let mo := mx_of n n in
+  is_unit_lower (mo L0) -> is_upper (mo U0) -> mo L0 *m mo U0 = mo wT *m mo (nth [::] A 0) ->
+  mo L0inv *m mo L0 = 1%:M -> mo U0 *m mo U0inv = 1%:M -> sgn * \det (mo wT) = 1 ->
+  forall d, (d < size A)%N ->
+  (detU n sgn [seq p.2 | p <- luU n wT A L0 U0 L0inv U0inv])`_d = (\det (pmx [seq mo a | a <- A]))`_d.
+Proof. exact: detU_luU_is_det. Qed.
+Print Assumptions C07_detU_luU_is_det.
